@@ -746,3 +746,82 @@ reg(dict(
         "keep-alive expiry as a cause is covered by C20 (real time)",
         "generator = enumeration spec Faults.tla; base scenarios and causes are tables in bin/groups.py",
     ]), ["C07"])
+
+
+# =============================================================================================
+# group "stream": C08  (PktSeq.tla generator + StreamMon.tla over the raw byte stream)
+
+def c08_decode_for(ver, role):
+    def dec(tokens, variant):
+        cfg = dict(role=role, ver=ver, gate_pub=0, gate_proto=0, max_qos=2, max_receive=16, max_send=4, raw=1)
+        extra = {"mps": 64, "rm": 4} if ver == 5 else None
+        cmds = [handshake(role, ver, connack=extra, connect=extra)]
+        nxt = 1
+        cur = 0        # current streaming sender
+        for t in tokens:
+            if t == 1:
+                cmds.append({"c": "send", "s": nxt, "k": "q0", "plen": 3}); nxt += 1
+            elif t == 2:
+                cmds += [{"c": "send", "s": nxt, "k": "q1", "id": 0}, {"c": "poll", "s": nxt}]; nxt += 1
+            elif t == 3:
+                cmds += [{"c": "send", "s": nxt, "k": "q2", "id": 0}, {"c": "poll", "s": nxt}]; nxt += 1
+            elif t == 4:
+                cmds += [{"c": "send", "s": nxt, "k": "stream1", "id": 0, "plen": 6}, {"c": "poll", "s": nxt}]
+                cur = nxt; nxt += 1
+            elif t in (5, 6, 7):
+                if cur:
+                    cmds.append({"c": "chunk", "s": cur, "n": {5: 2, 6: 4, 7: 7}[t], "t": 40 + nxt}); nxt += 1
+            elif t == 8:
+                if cur:
+                    cmds.append({"c": "sdrop", "s": cur}); cur = 0
+            elif t == 9:
+                cmds.append({"c": "send", "s": nxt, "k": "stream0", "plen": 5}); cur = nxt; nxt += 1
+            elif t == 10:
+                cmds += [{"c": "send", "s": nxt, "k": "q1", "id": 0, "topic": "x" * 70000}, {"c": "poll", "s": nxt}]; nxt += 1
+            elif t == 11:
+                cmds += [{"c": "send", "s": nxt, "k": "q1", "id": 0, "plen": 200}, {"c": "poll", "s": nxt}]; nxt += 1
+            elif t == 12:
+                cmds += [{"c": "send", "s": nxt, "k": "q1", "id": 1}, {"c": "poll", "s": nxt}]; nxt += 1
+            elif t == 13:
+                cmds += [{"c": "arm", "o": "ok"}, {"c": "in", "p": {"t": "publish", "q": 1, "id": 21, "topic": "t", "plen": 1}}]
+            elif t == 14:
+                cmds.append({"c": "ack", "n": 1})
+            elif t == 15:
+                cmds.append({"c": "close", "k": "close"})
+            elif t == 16:
+                if role == "client":
+                    cmds += [{"c": "send", "s": nxt, "k": "sub", "id": 0}, {"c": "poll", "s": nxt}]; nxt += 1
+                else:
+                    cmds.append({"c": "in", "p": {"t": "pingreq"}})
+            elif t == 17:
+                cmds.append({"c": "send", "s": nxt, "k": "q0", "id": 7, "plen": 3}); nxt += 1
+        cmds.append({"c": "settle"})
+        return cfg, cmds
+    return dec
+
+
+def c08_configs(tier):
+    cs = []
+    for ver in (3, 5):
+        for role in ("server", "client"):
+            if tier == "quick":
+                cs.append((f"v{ver}{role[0]}_l2", PKTSEQ_CFG.format(nt=17, maxlen=2, minlen=1), "PktSeq", c08_decode_for(ver, role), [None]))
+                cs.append((f"v{ver}{role[0]}_l4", PKTSEQ_CFG.format(nt=17, maxlen=4, minlen=3), "PktSeq", c08_decode_for(ver, role), [None]))
+            else:
+                cs.append((f"v{ver}{role[0]}_l4", PKTSEQ_CFG.format(nt=17, maxlen=4, minlen=1), "PktSeq", c08_decode_for(ver, role), [None]))
+    return cs
+
+
+reg(dict(
+    name="stream", judge="StreamJudge", configs=c08_configs, signature=lambda v: f"{v['why']}|v{v['cfg']['ver']}|{v['cfg']['role']}|" + "+".join(sorted({c.get('k', c['c']) for c in v['cmds'] if c['c'] in ('send', 'chunk', 'sdrop', 'close')})),
+    level={}, quota=500, quota_thorough=30000,
+    rule="TLC enumerates every sequence (<= 4) over 17 sink-operation tokens: QoS 0/1/2 sends, QoS 0 with a packet id, streamed QoS 1 and QoS 0 "
+         "sends, chunks (exact, short, over-delivery), dropped stream, sends that fail in the encoder (70000-byte topic, "
+         "over the peer's Maximum Packet Size, packet id in use), an inbound PUBLISH whose handler response goes through "
+         "the dispatcher, peer acknowledgement, close, subscribe/ping; the complete raw byte stream captured on the peer "
+         "side is judged by StreamMon (TLA+ frame decoder): valid type/flags, well-formed Remaining Length, PUBLISH frames "
+         "carrying exactly their own payload, no bytes left by a failed send, stream ends inside a packet only after an abort",
+    assumptions=[
+        "payloads are harness fill bytes (0x62 / 0x63) so that a foreign packet inside a payload is recognisable",
+        "field-level well-formedness of each packet is the business of C01 (WireJudge); StreamMon checks framing, flags and payload extents",
+    ]), ["C08"])
